@@ -122,9 +122,10 @@ prop(
     "C16",
     "two-run non-interference monitor: every base URL accepted by url.Parse is instantiated with each of 15 credentials (user-only, user+password, empty, mask-like, escaped, non-ASCII, token-like) and all redacted String()s must be "
     "identical, the userinfo must be the fixed mask, every other component must DeepEqual the input's, the input must be unchanged and a nil-userinfo URL returned as is; RedactUserinfoInURLError is observed on top-level, "
-    "wrapped, joined, custom and plain errors and on URLs without userinfo. " + URLGEN + ". A base URL is one case (distinct by hash)",
-    [st("redact", "urls", "TestC16", timeout_q=600, timeout_t=3000)],
-    floors=[dict(stage="redact", key="base_urls", min=30_000)],
+    "wrapped, joined, custom and plain errors and on URLs without userinfo; the same *url.URL is redacted again after its components and credentials changed (stale results); a -race stage shares one *url.URL between goroutines "
+    "that redact, rewrite errors and read the input (the input must never be modified, not even transiently). " + URLGEN + ". A base URL is one case (distinct by hash)",
+    [st("redact", "urls", "TestC16", timeout_q=600, timeout_t=3000), st("concurrent", "urls", "TestC16Concurrent", race=True, timeout_q=600, timeout_t=2400)],
+    floors=[dict(stage="redact", key="base_urls", min=30_000), dict(stage="concurrent", key="rounds", min=300)],
 )
 
 prop(
